@@ -27,8 +27,13 @@ type JV struct {
 	Kids []*JV
 }
 
-func jNull() *JV           { return &JV{K: JNull} }
-func jBool(b bool) *JV     { if b { return &JV{K: JTrue} }; return &JV{K: JFalse} }
+func jNull() *JV { return &JV{K: JNull} }
+func jBool(b bool) *JV {
+	if b {
+		return &JV{K: JTrue}
+	}
+	return &JV{K: JFalse}
+}
 func jNum(lit []byte) *JV  { return &JV{K: JNum, Lit: lit} }
 func jNumS(lit string) *JV { return &JV{K: JNum, Lit: []byte(lit)} }
 func jStr(val []byte) *JV  { return &JV{K: JStr, Lit: val} }
